@@ -226,3 +226,46 @@ Definition kxmapix (ntaxa nparent : nat) (unique_parents : bool) : option (list 
       repeated len(xmap) times and that the per-cross nmating array enters the number through its sum only. *)
 Definition kuc_int_bounds (nc np : nat) (nm : list Z) (nx : nat) : option (list Z * list Z) :=
   np_stack2 (repeat k_uc_int_lower nx) (repeat (k_uc_int_upper (zn nc) (zn np) (sumZ nm)) nx).
+
+(** * 8. the decision space of the protocols over a cross map (OptimalHaploidValue* / UsefulnessCriterion* Selection .problem()).
+      xmap = <Problem>._calc_xmap(<k_*_xmap arguments>) with _calc_xmap the dispatch <k_*_calc_xmap> on triudix / triuix;
+      subset encoding: decn_space = numpy.arange(<space_n>), lower = numpy.repeat(<lower_v>, <lower_n>), upper likewise, ndecn;
+      vector encodings: lower / upper likewise, decn_space = numpy.stack([lower, upper]) (refused unless both have one length).
+      The translator pins that the problem object is built over the same map (OHV: from_pgmat_gpmod recomputes it from the same
+      three arguments; UC: the map is handed on) and that a per-cross array enters a bound through its sum only. *)
+Definition xmap_t := option (list (list nat)).
+Definition kxmap_of (calc : (nat -> nat -> xmap_t) -> (nat -> nat -> xmap_t) -> nat -> nat -> bool -> xmap_t) (n k : Z) (u : bool) : xmap_t :=
+  calc ktriudix ktriuix (Z.to_nat n) (Z.to_nat k) u.
+Definition kexpr := Z -> Z -> Z -> Z -> Z -> Z.          (* ncross nparent nxmap sum(nmating) sum(nmating*nprogeny) *)
+Definition kspace_subset (xm : (Z -> Z -> bool -> xmap_t) -> Z -> Z -> Z -> bool -> xmap_t)
+    (calc : (nat -> nat -> xmap_t) -> (nat -> nat -> xmap_t) -> nat -> nat -> bool -> xmap_t)
+    (space_n lower_v lower_n upper_v upper_n ndecn : kexpr)
+    (ntaxa nparent ncross : nat) (nm npg : list Z) (u : bool) : option (list Z * list Z * list Z * Z) :=
+  match xm (kxmap_of calc) (zn ntaxa) (zn nparent) (zn ncross) u with
+  | None => None
+  | Some L =>
+      let a (f : kexpr) := f (zn ncross) (zn nparent) (zn (length L)) (sumZ nm) (sumZ (map2 Z.mul nm npg)) in
+      Some (map Z.of_nat (seq 0 (Z.to_nat (a space_n))), repeat (a lower_v) (Z.to_nat (a lower_n)),
+            repeat (a upper_v) (Z.to_nat (a upper_n)), a ndecn)
+  end.
+Definition kspace_vector {V : Type} (xm : (Z -> Z -> bool -> xmap_t) -> Z -> Z -> Z -> bool -> xmap_t)
+    (calc : (nat -> nat -> xmap_t) -> (nat -> nat -> xmap_t) -> nat -> nat -> bool -> xmap_t)
+    (lower_v : Z -> Z -> Z -> Z -> Z -> V) (lower_n : kexpr) (upper_v : Z -> Z -> Z -> Z -> Z -> V) (upper_n ndecn : kexpr)
+    (ntaxa nparent ncross : nat) (nm npg : list Z) (u : bool) : option (list V * list V * Z) :=
+  match xm (kxmap_of calc) (zn ntaxa) (zn nparent) (zn ncross) u with
+  | None => None
+  | Some L =>
+      let a {T} (f : Z -> Z -> Z -> Z -> Z -> T) := f (zn ncross) (zn nparent) (zn (length L)) (sumZ nm) (sumZ (map2 Z.mul nm npg)) in
+      let lower := repeat (a lower_v) (Z.to_nat (a lower_n)) in
+      let upper := repeat (a upper_v) (Z.to_nat (a upper_n)) in
+      if Nat.eqb (length lower) (length upper) then Some (lower, upper, a ndecn) else None
+  end.
+Definition konst {V} (v : V) : Z -> Z -> Z -> Z -> Z -> V := fun _ _ _ _ _ => v.
+Definition kspace_ohv_mate := kspace_subset (@k_ohv_mate_xmap _) (@k_ohv_calc_xmap _) k_ohv_mate_space_n k_ohv_mate_lower_v k_ohv_mate_lower_n k_ohv_mate_upper_v k_ohv_mate_upper_n k_ohv_mate_ndecn.
+Definition kspace_uc_mate := kspace_subset (@k_uc_mate_xmap _) (@k_uc_calc_xmap _) k_uc_mate_space_n k_uc_mate_lower_v k_uc_mate_lower_n k_uc_mate_upper_v k_uc_mate_upper_n k_uc_mate_ndecn.
+Definition kspace_ohv_imate := kspace_vector (@k_ohv_imate_xmap _) (@k_ohv_calc_xmap _) k_ohv_imate_lower_v k_ohv_imate_lower_n k_ohv_imate_upper_v k_ohv_imate_upper_n k_ohv_imate_ndecn.
+Definition kspace_uc_imate := kspace_vector (@k_uc_imate_xmap _) (@k_uc_calc_xmap _) k_uc_imate_lower_v k_uc_imate_lower_n k_uc_imate_upper_v k_uc_imate_upper_n k_uc_imate_ndecn.
+Definition kspace_ohv_bmate := kspace_vector (@k_ohv_bmate_xmap _) (@k_ohv_calc_xmap _) k_ohv_bmate_lower_v k_ohv_bmate_lower_n k_ohv_bmate_upper_v k_ohv_bmate_upper_n k_ohv_bmate_ndecn.
+Definition kspace_uc_bmate := kspace_vector (@k_uc_bmate_xmap _) (@k_uc_calc_xmap _) k_uc_bmate_lower_v k_uc_bmate_lower_n k_uc_bmate_upper_v k_uc_bmate_upper_n k_uc_bmate_ndecn.
+Definition kspace_ohv_rmate := kspace_vector (@k_ohv_rmate_xmap _) (@k_ohv_calc_xmap _) (konst k_ohv_rmate_lower_v) k_ohv_rmate_lower_n (konst k_ohv_rmate_upper_v) k_ohv_rmate_upper_n k_ohv_rmate_ndecn.
+Definition kspace_uc_rmate := kspace_vector (@k_uc_rmate_xmap _) (@k_uc_calc_xmap _) (konst k_uc_rmate_lower_v) k_uc_rmate_lower_n (konst k_uc_rmate_upper_v) k_uc_rmate_upper_n k_uc_rmate_ndecn.
